@@ -384,15 +384,33 @@ fn connect<P: AsRef<Path>>(env: &Env, dbfile: P) -> rusqlite::Result<Connection>
     // mode PERSIST.  But WAL fails on Windows WSL due to WSL's totally broken
     // locking.  On WSL, at least PERSIST works in single-threaded mode, so
     // if we're careful we can use it, more or less.
-    let journal_mode = db.query_row(
-        if env.locks_broken() {
-            "pragma journal_mode = PERSIST"
-        } else {
-            "pragma journal_mode = WAL"
-        },
-        [],
-        |row| -> rusqlite::Result<String> { row.get(0) },
-    )?;
+    // Changing the journal mode needs the exclusive lock, and SQLite answers
+    // SQLITE_BUSY for this pragma at once, without consulting the busy timeout:
+    // of several commands started together in a fresh project all but one
+    // would give up with "database is locked".  Wait for the others instead.
+    let pragma = if env.locks_broken() {
+        "pragma journal_mode = PERSIST"
+    } else {
+        "pragma journal_mode = WAL"
+    };
+    let started = std::time::Instant::now();
+    let mut delay = Duration::from_millis(1);
+    let journal_mode = loop {
+        match db.query_row(pragma, [], |row| -> rusqlite::Result<String> {
+            row.get(0)
+        }) {
+            Ok(mode) => break mode,
+            Err(rusqlite::Error::SqliteFailure(e, _))
+                if (e.code == rusqlite::ErrorCode::DatabaseBusy
+                    || e.code == rusqlite::ErrorCode::DatabaseLocked)
+                    && started.elapsed() < Duration::from_secs(60) =>
+            {
+                std::thread::sleep(delay);
+                delay = std::cmp::min(delay * 2, Duration::from_millis(50));
+            }
+            Err(e) => return Err(e),
+        }
+    };
     if env.locks_broken() {
         assert_eq!(&journal_mode, "persist");
     } else {
